@@ -198,7 +198,7 @@ type c20Outcome struct {
 	txOverlap   int32
 	remoteUnits int
 	pairs       int64
-	base        int // operations the replica had emitted before the goroutines started
+	base        int      // operations the replica had emitted before the goroutines started
 	half        []string // reads that showed a half-applied transaction
 }
 
